@@ -87,9 +87,13 @@ func (s *storageAdapter) executeQuery(ctx context.Context) {
 	case promql.Matrix:
 		s.series = make([]engstore.SignedSeries, len(val))
 		for i, series := range val {
+			// Closing the query hands the points back to a pool of the engine
+			// that produced them, so they have to be copied to be used afterwards.
+			points := make([]promql.Point, len(series.Points))
+			copy(points, series.Points)
 			s.series[i] = engstore.SignedSeries{
 				Signature: uint64(i),
-				Series:    promql.NewStorageSeries(series),
+				Series:    promql.NewStorageSeries(promql.Series{Metric: series.Metric, Points: points}),
 			}
 		}
 	case promql.Vector:
